@@ -5,6 +5,8 @@
 mod args;
 mod config;
 mod parse;
+#[cfg(typeshare_verif)]
+mod verif;
 mod writer;
 
 use std::{
@@ -125,6 +127,8 @@ fn generate_types(config_file: Option<&Path>, options: &Args) -> anyhow::Result<
         language_type,
     )?;
 
+    #[cfg(typeshare_verif)]
+    verif::point("Joined", "", &parsed_data.len().to_string());
     reconcile_aliases(&mut parsed_data);
 
     // Collect all the types into a map of the file name they
@@ -136,12 +140,24 @@ fn generate_types(config_file: Option<&Path>, options: &Args) -> anyhow::Result<
         HashMap::new()
     };
 
+    #[cfg(typeshare_verif)]
+    verif::point(
+        "Reconciled",
+        "",
+        &parsed_data
+            .values()
+            .map(|d| d.errors.len())
+            .sum::<usize>()
+            .to_string(),
+    );
     check_parse_errors(&parsed_data)?;
 
     info!("typeshare started writing generated types");
 
     write_generated(destination, lang.as_mut(), parsed_data, import_candidates)?;
 
+    #[cfg(typeshare_verif)]
+    verif::point("Written", "", "");
     info!("typeshare finished generating types");
     Ok(())
 }
@@ -173,6 +189,10 @@ fn walker_builder(
         .follow_links(options.follow_links);
     for root in directories.iter().skip(1) {
         walker_builder.add(root);
+    }
+    #[cfg(typeshare_verif)]
+    if let Some(n) = verif::threads() {
+        walker_builder.threads(n);
     }
     Ok(walker_builder)
 }
